@@ -279,7 +279,7 @@ func c15Worker(ctx *core.Ctx) *core.Result {
 				continue
 			}
 			for _, kind := range []string{"0:02:00", "0:01:00"} {
-				for _, where := range []string{"before", "inside", "behind-output", "after"} {
+				for _, where := range []string{"before", "inside", "behind-output", "behind-output-tight", "after"} {
 					for _, errKind := range []string{sim.DevError, sim.DevError1} {
 						serial++
 						if !ctx.Mine(serial) {
